@@ -120,7 +120,14 @@ func (x *vc) freshResult(st *state, resT types.Type, hint string) Val {
 
 func (x *vc) havocCall(st *state, resT types.Type, what string, writes bool) {
 	if writes {
+		var pre *state
+		if x.topFC != nil && len(x.topFC.preserves) > 0 {
+			pre = st.clone()
+		}
 		x.havoc(st, &modSet{all: true}, "call to "+what+" without contract")
+		if pre != nil {
+			x.preserveObjects(nil, pre, st)
+		}
 		if st.nextRef != "" {
 			nr := x.freshName("nextRef")
 			x.declare(nr, sInt)
